@@ -5,7 +5,7 @@
 set -u
 patch=$1; shift
 root=$(cd "$(dirname "$0")/.." && pwd)
-mr=/root/work/mutrepo; mv=/root/work/muteval
+slot=${MUT_SLOT:-}; mr=/root/work/mutrepo$slot; mv=/root/work/muteval$slot
 if [ ! -d "$mr/.git" ]; then rm -rf "$mr"; git clone -q /repo "$mr"; fi
 git -C "$mr" fetch -q /repo HEAD 2>/dev/null && git -C "$mr" reset -q --hard FETCH_HEAD
 if [ ! -d "$mv/.git" ]; then rm -rf "$mv"; git clone -q "$root" "$mv"; fi
